@@ -661,7 +661,7 @@ def _schedule_rewrites(
             # number, or after the last line. The lines around it may be indented differently,
             # so the indentation is written out rather than reused.
             line_start_charnos = core._get_line_start_charnos(source)
-            lineno = getattr(after, "lineno", 1)
+            lineno = max(getattr(after, "lineno", 1), 1)
             if lineno <= len(line_start_charnos):
                 start = line_start_charnos[lineno - 1]
             else:
